@@ -146,6 +146,9 @@ def run(chk):
     drv_ = repo.module("esrally/driver/driver.py")
     chk.use(drv_)
     partition_call_rule(chk, "O3.1", drv_)
+    from rules.C02 import allocation_totals
+
+    allocation_totals(chk, "O3.1", drv_)
 
     # ---- O3.2 both consumers slice identically ---------------------------------------------------------------------------------------------------
     chk.rule("O3.2", "the call of bounds() in the reader factory and in the bulk counter pass role-identical arguments; results are unpacked in the returned order; values flow to the reader and "
